@@ -152,7 +152,8 @@ def run_C09():
     for it in range(N):
         shape = R.choice(['bare', 'lambda_formals', 'lambda_id', 'paren'])
         n = R.randrange(0, 4); layers = gen_layers(R, n)
-        body = '{\n  x = 1;\n  y = [\n    1\n  ];\n}'
+        body = R.choice(['{\n  x = 1;\n  y = [\n    1\n  ];\n}', '{\n  x = 1;\n  v = 0;\n  a = "body";\n}'])
+        body_keys = ('v', 'a') if 'v = 0' in body else ()
         inner = let_text(layers, body)
         text = {'bare': inner, 'lambda_formals': '{ pkgs }:\n' + inner, 'lambda_id': 'pkgs:\n' + inner, 'paren': '(' + inner + ')'}[shape] + '\n'
         src = parse(text); exp = copy.deepcopy(layers); ops = []; cur = text
@@ -161,6 +162,7 @@ def run_C09():
             if depth <= len(exp) and R.random() < 0.7: name = R.choice(sorted(exp[len(exp) - depth]))      # mostly names that exist in the addressed layer
             val = str(R.randrange(70, 80)); sel = '@' * depth + name
             op = ('set', sel, val) if opk == 'set' else ('rm', sel); ops.append(op)
+            if not exp and depth == 1 and opk == 'set' and name in body_keys: known['F-37'] = known.get('F-37', 0) + 1; break      # listed: without a let, @NAME of a body key edits the body
             err = None; e2 = copy.deepcopy(exp)
             if opk == 'set':
                 if depth > len(e2):
@@ -213,6 +215,7 @@ def run_C19():
                 layer_names = {k for L in meta['layers'] for k in L}
                 body_keys = [k[0] for k in leafs if len(k) == 1 and IDENT.match(k[0]) and k[0] not in layer_names]
                 p = '@' + (R.choice(body_keys) if body_keys and R.random() < 0.6 else 'fresh_k'); v = R.choice(VALUES[:5])    # a name fresh in the scope, possibly a key of the body
+                if meta.get('commented') and not meta['layers']: known['F-39'] = known.get('F-39', 0) + 1; continue      # listed: final newline lost when the set carries a leading comment
                 if not meta['layers'] and p != '@fresh_k': known['F-37'] = known.get('F-37', 0) + 1; continue      # listed: without a let, @NAME of a body key edits the body
                 a = parse(text); r1 = apply(a, ('set', p, v)); r2 = apply(a, ('rm', p))
                 if r1[0] == 'ok' and (r2[0] != 'ok' or r2[1] != text): bad('set of a fresh scope-prefixed path then rm does not restore the text', doc=text, ops=[['set', p, v], ['rm', p]], got=r2[1] if r2[0] == 'ok' else r2)
@@ -224,7 +227,7 @@ def run_C19():
                     t2 = read_tree(r2[1]) if r2[0] == 'ok' else None
                     if t2 is None or not tree_matches(t2[0], tree0, p): bad('rm then set of the removed value does not restore the attribute tree', doc=text, ops=[['rm', pstr(p)], ['set', pstr(p), v]], got=r2[1] if r2[0] == 'ok' else r2)
             elif law == 'commute' and len(leafs) >= 2:
-                cands = [pstr(k) for k in leafs] + (['@' + k for L in meta['layers'] for k in L] if WRAPPERS[meta['shape']][2] else [])
+                cands = [pstr(k) for k in leafs] + (['@' * (i + 1) + k for i, L in enumerate(reversed(meta['layers'])) for k in L] if WRAPPERS[meta['shape']][2] else [])       # @^i name exists in the i-th layer from the innermost
                 p, q_ = R.sample(sorted(set(cands)), 2)
                 if p.startswith(q_ + '.') or q_.startswith(p + '.'): continue
                 v, w = R.choice(VALUES[:5]), R.choice(VALUES[:5])
